@@ -292,7 +292,7 @@ impl Driver for C12 {
             let mut m = gen_model(&mut rng, stratum);
             // coefficient magnitudes from 1e-9 to 1e9 and negative constants under unary minus
             if rng.gen_bool(0.4) {
-                let k = [1e-9, -1e-9, 3e-7, -0.000001, 1e9, -2.5e8, 123456.789, -0.1][rng.gen_range(0..8)];
+                let k = [1e-9, -1e-9, 3e-7, -0.000001, 1e9, -2.5e8, 123456.789, -0.1, 3e19, -2e20][rng.gen_range(0..10)];
                 let nums: Vec<usize> = (0..m.n()).filter(|i| m.types[*i] != VT::Bool).collect();
                 if let Some(&i) = nums.first() {
                     m.obj = E::add(m.obj.clone(), E::mul(E::Num(k), E::Var(i)));
@@ -421,7 +421,7 @@ pub fn debug_case(seed: u64, unit: usize, case: usize) {
         let stratum = STRATA[rng.gen_range(0..STRATA.len())];
         let mut m = gen_model(&mut rng, stratum);
         if rng.gen_bool(0.4) {
-            let k = [1e-9, -1e-9, 3e-7, -0.000001, 1e9, -2.5e8, 123456.789, -0.1][rng.gen_range(0..8)];
+            let k = [1e-9, -1e-9, 3e-7, -0.000001, 1e9, -2.5e8, 123456.789, -0.1, 3e19, -2e20][rng.gen_range(0..10)];
             let nums: Vec<usize> = (0..m.n()).filter(|i| m.types[*i] != VT::Bool).collect();
             if let Some(&i) = nums.first() {
                 m.obj = E::add(m.obj.clone(), E::mul(E::Num(k), E::Var(i)));
